@@ -46,6 +46,33 @@ def run_e2e(args):
                 import gc, time
                 gc.collect(); time.sleep(0.05)
                 rec["runs"].append({"T": T, "kind": "drop", "k": k, "got": part, "threads_alive": len(os.listdir("/proc/self/task")) - base_threads})
+        # several Rust-backed passes alive at the same time with staggered life times: A and B open, A ends while B is
+        # mid-pass, C opens, B and C are consumed alternately (train / validation passes interleaved in one process)
+        if nsh >= 2:
+            want = {}
+            for name, kshards in (("A", 1), ("B", None), ("C", max(1, nsh - 1))):
+                want[name], _ = I.run_iface(ds, "sync", "train", shuffle=0, T=1, **({"shards": kshards} if kshards else {}))
+            def rust(kshards):
+                kw = {"shards": kshards} if kshards else {}
+                return ds.as_numpy_iterator_rust(split="train", repeat=False, shuffle=0, file_parallelism=2, **kw)
+            got = {"A": [], "B": [], "C": []}
+            try:
+                A = rust(1); got["A"].append(sp.ident(next(A)))
+                B = rust(None); got["B"].append(sp.ident(next(B)))
+                got["A"] += [sp.ident(e) for e in A]                 # A runs to its end and is released
+                del A
+                C = rust(max(1, nsh - 1))
+                its = {"B": B, "C": C}
+                live = ["B", "C"]
+                while live:
+                    for nm in list(live):
+                        try:
+                            got[nm].append(sp.ident(next(its[nm])))
+                        except StopIteration:
+                            live.remove(nm)
+                rec["runs"].append({"T": 2, "kind": "overlap3", "got": got, "want": want})
+            except BaseException as e:  # noqa: BLE001
+                rec["runs"].append({"T": 2, "kind": "overlap3", "got": got, "want": want, "error": f"{type(e).__name__}: {str(e)[:150]}"})
         out.append(rec)
         shutil.rmtree(root, ignore_errors=True)
     return out
@@ -70,6 +97,13 @@ def run(ctx):
     lines, rc, tail = cargo_harness(ctx)
     if not lines:
         raise RuntimeError(f"cargo harness produced nothing (rc={rc}): {tail}")
+    kinds = collections.Counter(l["kind"] for l in lines)
+    if rc != 0 or kinds["stall"] < 2:
+        # the integration test itself aborted: a panic inside parallel_map (e.g. a worker that gave up while the consumer stalled)
+        done = f"{kinds['full']} full, {kinds['drop']} drop, {kinds['stall']} stall cases completed"
+        panic = next((ln.strip() for ln in tail.split("\n") if "panicked" in ln or "died" in ln), tail[-200:])
+        ctx.report({"kind": "stall" if kinds["stall"] < 2 else "abort", "level": "parallel_map", "what": "panic"},
+                   f"parallel_map aborted in the cargo harness (rc={rc}; {done}): {panic[:200]}", {"cargo_rc": rc, "completed": dict(kinds), "tail": tail[-1500:]})
     reqs = []
     for l in lines:
         reqs.append({"m": "pmap", "threads": l["threads"], "n": l["n"], "seed": rng.randrange(1 << 20),
@@ -109,6 +143,12 @@ def run(ctx):
             sig = {"kind": run_["kind"], "level": "extension", "T_lt_n": run_["T"] < r["nshards"]}
             if "error" in run_:
                 ctx.report(dict(sig, what="error"), f"as_numpy_iterator_rust(T={run_['T']}) raised {run_['error']}", {"case": r["case"], "run": run_}); continue
+            if run_["kind"] == "overlap3":
+                if run_["got"] != run_["want"]:
+                    bad = [k for k in ("A", "B", "C") if run_["got"][k] != run_["want"][k]]
+                    ctx.report(dict(sig, what="overlapping-passes"), f"three overlapping Rust passes (A ends while B is mid-pass, then C opens): pass {bad[0]} yields {run_['got'][bad[0]][:12]} instead of {run_['want'][bad[0]][:12]}",
+                               {"case": r["case"], "run": run_})
+                continue
             if run_["kind"] == "full" and run_["got"] != r["python"]:
                 ctx.report(dict(sig, what="differs"), f"rust reader (T={run_['T']}, {r['nshards']} shards, {r['case']['comp'] or 'no'} compression) yields {run_['got'][:12]}… python yields {r['python'][:12]}…",
                            {"case": r["case"], "run": run_, "python": r["python"]})
